@@ -354,6 +354,10 @@ unsafe fn emulate(ctx: &Ctx) -> bool {
                     let n = m.reg; // control/debug register number (REX.R extends)
                     match op2 {
                         0x20 => {
+                            if n == 3 && EXIT_ON_CR3_READ.load(core::sync::atomic::Ordering::SeqCst) {
+                                // a forked child that only wants to know whether CR3 is reached at all
+                                libc::_exit(42);
+                            }
                             let v = c.cr[n & 15];
                             ctx.set_reg(m.rm, v);
                             t.op = Op::MovFromCr;
@@ -501,6 +505,7 @@ unsafe fn emulate(ctx: &Ctx) -> bool {
 }
 
 /// hook for page faults that are not privileged-instruction faults (software MMU)
+pub static EXIT_ON_CR3_READ: core::sync::atomic::AtomicBool = core::sync::atomic::AtomicBool::new(false);
 pub static mut FAULT_HOOK: Option<unsafe fn(addr: u64, write: bool) -> bool> = None;
 
 extern "C" fn handler(sig: c_int, info: *mut siginfo_t, uctx: *mut c_void) {
